@@ -165,7 +165,7 @@ func (root *Schema) Resolve(opts *ResolveOptions) (*Resolved, error) {
 	if root == nil {
 		return nil, errors.New("jsonschema: cannot resolve a nil schema")
 	}
-	r := &resolver{loaded: map[string]*Resolved{}}
+	r := &resolver{loaded: map[string]*Resolved{}, rootDraft: detectDraft(root)}
 	if opts != nil {
 		r.opts = *opts
 	}
@@ -206,6 +206,8 @@ type resolver struct {
 	// refs resolved.) The cache ensures that the loader will never be called more
 	// than once with the same URI, and that reference cycles are handled properly.
 	loaded map[string]*Resolved
+	// The draft of the root schema.
+	rootDraft draft
 }
 
 func (r *resolver) resolve(s *Schema, baseURI *url.URL) (*Resolved, error) {
@@ -213,6 +215,11 @@ func (r *resolver) resolve(s *Schema, baseURI *url.URL) (*Resolved, error) {
 		return nil, fmt.Errorf("base URI %s must not have a fragment", baseURI)
 	}
 	rs := newResolved(s)
+	if s.Schema == "" {
+		// A loaded document that declares no $schema inherits the root's draft.
+		// (Do not record that in s.Schema: the document belongs to the Loader.)
+		rs.draft = r.rootDraft
+	}
 
 	if err := s.check(rs.resolvedInfos); err != nil {
 		return nil, err
@@ -553,10 +560,8 @@ func (r *resolver) resolveRef(rs *Resolved, s *Schema, ref string) (_ *Schema, d
 			if ls == nil {
 				return nil, "", fmt.Errorf("loading %s: loader returned a nil schema", fraglessRefURI)
 			}
-			// Check if referenced schema has $schema defined. If not it should inherit the resolved
-			if ls.Schema == "" {
-				ls.Schema = s.Schema
-			}
+			// If the referenced schema declares no $schema, resolve reads it under
+			// the root's draft.
 			lrs, err = r.resolve(ls, fraglessRefURI)
 			if err != nil {
 				return nil, "", err
